@@ -128,6 +128,7 @@ type stats struct {
 	SendOps    int    `json:"send_ops"`
 	ConsumeOps int    `json:"consume_ops"`
 	CloseOps   int    `json:"close_ops"`
+	Streams    int    `json:"streams"`
 }
 
 func cmdGen(seedS, tier, statsPath string) int {
@@ -203,8 +204,22 @@ func generate(seed uint64, tier string) ([]string, stats) {
 		st.Random++
 	}
 
+	// streams: a greedy receiver behind a small window (see stream.go)
+	streams := []string{"stream 512 100 8 10000", "stream 1 1 4 2000", "stream 64 100 8 5000", "stream 7 3 16 3000"}
+	if tier == "thorough" {
+		streams = append(streams, "stream 512 100 8 30000", "stream 4096 1000 4 10000", "stream 2 5 8 5000", "stream 1024 100 16 10000")
+		for i := 0; i < 8; i++ {
+			streams = append(streams, fmt.Sprintf("stream %d %d %d %d", 1+r.Intn(2000), 1+r.Intn(300), 1+r.Intn(16), 2000+r.Intn(8000)))
+		}
+	}
+	st.Streams = len(streams)
+	lines = append(lines, streams...)
+
 	st.Scripts = len(lines)
 	for _, l := range lines {
+		if strings.HasPrefix(l, "stream ") {
+			continue
+		}
 		for _, op := range strings.Split(l, " ")[1:] {
 			st.Ops++
 			switch op[0] {
